@@ -183,6 +183,12 @@ pub struct CallbackFaults {
     /// Panic in the n-th weigher call.
     #[serde(default)]
     pub weigh_panic_at: Option<u32>,
+    /// Panic in the n-th K::hash call made while a simulated operation executes.
+    #[serde(default, skip_serializing_if = "Option::is_none")]
+    pub hash_panic_at: Option<u32>,
+    /// Panic in the n-th K::eq call made while a simulated operation executes.
+    #[serde(default, skip_serializing_if = "Option::is_none")]
+    pub eq_panic_at: Option<u32>,
 }
 
 /// A fully explicit description of one simulated run. Replaying it consults no PRNG.
